@@ -1,9 +1,18 @@
 // C20 harness: etl::pair / etl::tuple / etl::invoke / call wrappers against std:: on the same case
-// lines.  Protocol: see lean/Tetl/C20/Driver.lean.  Part 1: instrumentation, element kinds, pair, tuple.
+// lines.  Protocol: see lean/Tetl/C20/Driver.lean.
+// The file is compiled as several translation units in parallel (checks/props/c20.py: -DC20_PART=k compiles the entry points of
+// group k only, -DC20_PART=-1 compiles main() and links the groups); without C20_PART it is one translation unit.
 #define TETL_ENABLE_CUSTOM_ASSERT_HANDLER 1
 #ifndef C20_HAS_IFN_MEMPTR
     #define C20_HAS_IFN_MEMPTR 1 // set by checks/props/c20.py from a compile probe of the tree under test
 #endif
+#ifndef C20_HAS_BF_MEMPTR_RV
+    #define C20_HAS_BF_MEMPTR_RV 1 // likewise: bind_front(pointer to member, object) called through an rvalue wrapper compiles
+#endif
+#ifndef C20_PART
+    #define C20_PART 99
+#endif
+#define C20_IN(k) (C20_PART == 99 || C20_PART == (k))
 #include "proto.hpp"
 
 #include <etl/functional.hpp>
@@ -35,7 +44,7 @@ template <typename Assertion>
 } // namespace etl
 
 // ---------------------------------------------------------------- instrumentation
-static int g_copies = 0; // counted copy constructions / copy assignments
+inline int g_copies = 0; // counted copy constructions / copy assignments
 
 struct Trk { // copyable (counted) and movable (the source reads -1 afterwards)
     int v;
@@ -81,10 +90,10 @@ struct Co { // copy-only: no move operations are declared, rvalues are copied
         return *this;
     }
 };
-static int val(int x) { return x; }
-static int val(Trk const& x) { return x.v; }
-static int val(Mo const& x) { return x.v; }
-static int val(Co const& x) { return x.v; }
+inline int val(int x) { return x; }
+inline int val(Trk const& x) { return x.v; }
+inline int val(Mo const& x) { return x.v; }
+inline int val(Co const& x) { return x.v; }
 // an argument that arrives as a reference_wrapper: the value is the referent's, the category letter is upper case
 template <typename T> struct is_refw : std::false_type { };
 template <typename T> struct is_refw<std::reference_wrapper<T>> : std::true_type { };
@@ -106,7 +115,7 @@ template <int K> using src_t  = typename kind<K>::src;
 
 // initialiser of an element of kind K: the referent for int&, a prvalue otherwise
 template <int K>
-static auto arg(src_t<K>& referent, int v) -> std::conditional_t<K == 4, int&, src_t<K>>
+inline auto arg(src_t<K>& referent, int v) -> std::conditional_t<K == 4, int&, src_t<K>>
 {
     if constexpr (K == 4) {
         (void)v;
@@ -118,7 +127,7 @@ static auto arg(src_t<K>& referent, int v) -> std::conditional_t<K == 4, int&, s
 }
 // "rvalue source" of kind K: int& can only be bound to an lvalue
 template <int K, typename S>
-static auto rv(S& x) -> std::conditional_t<K == 4, S&, S&&>
+inline auto rv(S& x) -> std::conditional_t<K == 4, S&, S&&>
 {
     if constexpr (K == 4) { return x; } else { return std::move(x); }
 }
@@ -129,9 +138,9 @@ struct Entry {
     char self;
     std::vector<std::pair<char, long long>> args;
 };
-static std::vector<Entry> g_log;
+inline std::vector<Entry> g_log;
 
-static std::string fmt_log()
+inline std::string fmt_log()
 {
     if (g_log.empty()) return "-";
     std::string r;
@@ -145,7 +154,7 @@ static std::string fmt_log()
     }
     return r;
 }
-static long long result_of(int tid, std::vector<std::pair<char, long long>> const& a)
+inline long long result_of(int tid, std::vector<std::pair<char, long long>> const& a)
 {
     long long r = tid;
     for (auto const& p : a) r = r * 10 + p.second;
@@ -160,13 +169,13 @@ constexpr char cat_of()
     else { return std::is_const_v<R> ? (w ? 'K' : 'k') : (w ? 'R' : 'r'); }
 }
 template <typename... A>
-static long long record(int tid, char self, A&&... a)
+inline long long record(int tid, char self, A&&... a)
 {
     Entry e{tid, self, {{cat_of<A>(), static_cast<long long>(val(a))}...}};
     g_log.push_back(e);
     return result_of(tid, e.args);
 }
-static long long record_v(int tid, char self, std::vector<std::pair<char, long long>> args)
+inline long long record_v(int tid, char self, std::vector<std::pair<char, long long>> args)
 {
     g_log.push_back(Entry{tid, self, args});
     return result_of(tid, args);
@@ -191,7 +200,7 @@ struct Pred {
 
 // apply a value category chosen at run time
 template <typename T, typename F>
-static auto with_cat(long long c, T& o, F&& f)
+inline auto with_cat(long long c, T& o, F&& f)
 {
     switch (c) {
     case 0: return f(o);
@@ -209,6 +218,7 @@ struct E { // tetl
     template <typename... T> using tuple         = etl::tuple<T...>;
     template <typename T> using refw              = etl::reference_wrapper<T>;
     template <std::size_t I, typename T> static decltype(auto) get(T&& t) { return etl::get<I>(std::forward<T>(t)); }
+    template <typename U, typename T> static decltype(auto) get_t(T&& t) { return etl::get<U>(std::forward<T>(t)); }
     template <typename... A> static auto make_pair(A&&... a) { return etl::make_pair(std::forward<A>(a)...); }
     template <typename... A> static auto make_tuple(A&&... a) { return etl::make_tuple(std::forward<A>(a)...); }
     template <typename... A> static auto forward_as_tuple(A&&... a) { return etl::forward_as_tuple(std::forward<A>(a)...); }
@@ -229,6 +239,7 @@ struct S { // libstdc++
     template <typename... T> using tuple         = std::tuple<T...>;
     template <typename T> using refw              = std::reference_wrapper<T>;
     template <std::size_t I, typename T> static decltype(auto) get(T&& t) { return std::get<I>(std::forward<T>(t)); }
+    template <typename U, typename T> static decltype(auto) get_t(T&& t) { return std::get<U>(std::forward<T>(t)); }
     template <typename... A> static auto make_pair(A&&... a) { return std::make_pair(std::forward<A>(a)...); }
     template <typename... A> static auto make_tuple(A&&... a) { return std::make_tuple(std::forward<A>(a)...); }
     template <typename... A> static auto forward_as_tuple(A&&... a) { return std::forward_as_tuple(std::forward<A>(a)...); }
@@ -244,14 +255,82 @@ struct S { // libstdc++
     template <typename T> static void swap(T& a, T& b) { using std::swap; swap(a, b); }
 };
 
-static std::string fmt_vals(std::initializer_list<int> v)
+inline std::string fmt_vals(std::initializer_list<int> v)
 {
     std::vector<long long> w(v.begin(), v.end());
     return proto::fmt_list(w);
 }
-static std::string res(std::string r, std::string a, std::string b)
+inline std::string res(std::string r, std::string a, std::string b)
 {
     return "r=" + r + " a=" + a + " b=" + b + " cp=" + std::to_string(g_copies);
+}
+
+
+// ---------------------------------------------------------------- entry points of the translation units
+namespace part {
+std::string pair_e(Line const& l);
+std::string pair_s(Line const& l);
+std::string tuple_e0(Line const& l);
+std::string tuple_e1(Line const& l);
+std::string tuple_e2(Line const& l);
+std::string tuple_e3(Line const& l);
+std::string tuple_s0(Line const& l);
+std::string tuple_s1(Line const& l);
+std::string tuple_s2(Line const& l);
+std::string tuple_s3(Line const& l);
+std::string tcat_e0(Line const& l);
+std::string tcat_e1(Line const& l);
+std::string tcat_e2(Line const& l);
+std::string tcat_s0(Line const& l);
+std::string tcat_s1(Line const& l);
+std::string tcat_s2(Line const& l);
+std::string calls_e(Line const& l);   // invoke, fref, ifn2, rw, nf, nfc, typeq
+std::string calls_s(Line const& l);
+std::string bf_e0(Line const& l);
+std::string bf_e1(Line const& l);
+std::string bf_s0(Line const& l);
+std::string bf_s1(Line const& l);
+std::string ifn_new();
+std::string ifn_step(Line const& l);
+} // namespace part
+
+// ---------------------------------------------------------------- targets of invoke: functions, a class with ref-qualified members
+inline long long fn1(int a, int b) { return record_v(1, '-', {{'v', a}, {'v', b}}); }
+inline long long fn2(int a, int b) { return record_v(2, '-', {{'v', a}, {'v', b}}); }
+
+struct Sc {
+    int dm = 0;
+    long long q(int x) & { return record_v(5, 'l', {{'v', x}}); }
+    long long q(int x) const& { return record_v(5, 'c', {{'v', x}}); }
+    long long q(int x) && { return record_v(5, 'r', {{'v', x}}); }
+    long long q(int x) const&& { return record_v(5, 'k', {{'v', x}}); }
+    bool pf = false; // what the member predicate returns
+    bool pq(int x) & { record_v(11, 'l', {{'v', x}}); return pf; }
+    bool pq(int x) const& { record_v(11, 'c', {{'v', x}}); return pf; }
+    bool pq(int x) && { record_v(11, 'r', {{'v', x}}); return pf; }
+    bool pq(int x) const&& { record_v(11, 'k', {{'v', x}}); return pf; }
+};
+using ppf_l = bool (Sc::*)(int) &;
+using ppf_c = bool (Sc::*)(int) const&;
+using ppf_r = bool (Sc::*)(int) &&;
+using ppf_k = bool (Sc::*)(int) const&&;
+struct Dc : Sc { int extra = 1; };
+
+using pmf_l = long long (Sc::*)(int) &;
+using pmf_c = long long (Sc::*)(int) const&;
+using pmf_r = long long (Sc::*)(int) &&;
+using pmf_k = long long (Sc::*)(int) const&&;
+
+// call g(pmf, object expression) with the pmf whose qualifier matches the expression's category
+template <typename Obj, typename G>
+inline long long with_obj(long long c, Obj& o, G&& g)
+{
+    switch (c) {
+    case 0: return g(static_cast<pmf_l>(&Sc::q), o);
+    case 1: return g(static_cast<pmf_c>(&Sc::q), std::as_const(o));
+    case 2: return g(static_cast<pmf_r>(&Sc::q), std::move(o));
+    default: return g(static_cast<pmf_k>(&Sc::q), std::move(std::as_const(o)));
+    }
 }
 
 // ---------------------------------------------------------------- pair
@@ -267,10 +346,10 @@ struct POp {
     std::string vals() const { return fmt_vals({val(p.first), val(p.second)}); }
 };
 template <typename Pr>
-static std::string pvals(Pr const& p) { return fmt_vals({val(p.first), val(p.second)}); }
+inline std::string pvals(Pr const& p) { return fmt_vals({val(p.first), val(p.second)}); }
 
 template <typename L>
-static std::string pair_cmp(std::string const& e, std::vector<long long> const& a, std::vector<long long> const& b)
+inline std::string pair_cmp(std::string const& e, std::vector<long long> const& a, std::vector<long long> const& b)
 {
     auto bits = [](auto const& p, auto const& q) {
         std::string r;
@@ -292,7 +371,7 @@ static std::string pair_cmp(std::string const& e, std::vector<long long> const& 
 }
 
 template <typename L, int K1, int K2>
-static std::string pair_op(std::string const& op, std::vector<long long> const& a, std::vector<long long> const& b)
+inline std::string pair_op(std::string const& op, std::vector<long long> const& a, std::vector<long long> const& b)
 {
     using O  = POp<L, K1, K2>;
     using P  = typename O::P;
@@ -414,6 +493,24 @@ static std::string pair_op(std::string const& op, std::vector<long long> const& 
             return res(fmt_vals({val(v0), val(v1)}), o.vals(), proto::fmt_list(b));
         } else return na;
     }
+    if (op == "gett" || op == "gettr") {
+        // get<T>: only when the two element types differ
+        if constexpr (!std::is_same_v<elem_t<K1>, elem_t<K2>>) {
+            O o(a[0], a[1]);
+            g_copies = 0;
+            if (op == "gett") {
+                bool same = &L::template get_t<elem_t<K1>>(o.p) == &o.p.first && &L::template get_t<elem_t<K2>>(o.p) == &o.p.second
+                         && &L::template get_t<elem_t<K1>>(std::as_const(o.p)) == &o.p.first && &L::template get_t<elem_t<K2>>(std::as_const(o.p)) == &o.p.second;
+                return res(same ? fmt_vals({val(L::template get_t<elem_t<K1>>(o.p)), val(L::template get_t<elem_t<K2>>(o.p))}) : "!alias", o.vals(), proto::fmt_list(b));
+            }
+            // (libstdc++ 12: std::get<T&>(pair<T&, U>&&) does not compile - it returns std::move(p.first) - so reference kinds are left out)
+            if constexpr (K1 != 4 && K2 != 4) {
+                S1 v0(L::template get_t<elem_t<K1>>(std::move(o.p)));
+                S2 v1(L::template get_t<elem_t<K2>>(std::move(o.p)));
+                return res(fmt_vals({val(v0), val(v1)}), o.vals(), proto::fmt_list(b));
+            } else return na;
+        } else return na;
+    }
     if constexpr (K1 == 0 && K2 == 0) {
         using Sm = typename L::template pair<short, short>;
         using Lg = typename L::template pair<long, long>;
@@ -429,7 +526,7 @@ static std::string pair_op(std::string const& op, std::vector<long long> const& 
 }
 
 template <typename L, int K1>
-static std::string pair_k2(int k2, std::string const& op, std::vector<long long> const& a, std::vector<long long> const& b)
+inline std::string pair_k2(int k2, std::string const& op, std::vector<long long> const& a, std::vector<long long> const& b)
 {
     switch (k2) {
     case 0: return pair_op<L, K1, 0>(op, a, b);
@@ -442,7 +539,7 @@ static std::string pair_k2(int k2, std::string const& op, std::vector<long long>
     return "bad-op";
 }
 template <typename L>
-static std::string pair_line(Line const& l)
+inline std::string pair_line(Line const& l)
 {
     auto const& op = l.str("op");
     auto const& a  = l.list("a");
@@ -462,207 +559,365 @@ static std::string pair_line(Line const& l)
     return "bad-op";
 }
 
-// ---------------------------------------------------------------- tuple (uniform element kind K, arity N = 1..3)
+#if C20_IN(0)
+std::string part::pair_e(Line const& l) { return pair_line<E>(l); }
+#endif
+#if C20_IN(1)
+std::string part::pair_s(Line const& l) { return pair_line<S>(l); }
+#endif
+
+// ---------------------------------------------------------------- tuple (any list of element kinds, arity 1..3)
 template <typename L, typename T, int N> struct tup_n;
 template <typename L, typename T> struct tup_n<L, T, 1> { using type = typename L::template tuple<T>; };
 template <typename L, typename T> struct tup_n<L, T, 2> { using type = typename L::template tuple<T, T>; };
 template <typename L, typename T> struct tup_n<L, T, 3> { using type = typename L::template tuple<T, T, T>; };
 
-// aggregate target of make_from_tuple: stores what it was constructed from (perfect forwarding)
-template <typename Sv, int N>
+// element type maps: the element itself; the widened element (target of a converting constructor); the narrowed element
+// (source of a converting assignment)
+template <int K> struct map_elem { using type = elem_t<K>; };
+template <int K> struct map_wide { using type = std::conditional_t<K == 0, long, std::conditional_t<K == 5, long const, elem_t<K>>>; };
+template <int K> struct map_narrow { using type = std::conditional_t<K == 0, short, elem_t<K>>; };
+
+// target of make_from_tuple: stores what it was constructed from (perfect forwarding)
+template <typename... Sv>
 struct Agg {
-    std::optional<Sv> m[3];
-    template <typename A> explicit Agg(A&& a) { m[0].emplace(std::forward<A>(a)); }
-    template <typename A, typename B> Agg(A&& a, B&& b) { m[0].emplace(std::forward<A>(a)); m[1].emplace(std::forward<B>(b)); }
-    template <typename A, typename B, typename C> Agg(A&& a, B&& b, C&& c)
+    std::tuple<std::optional<Sv>...> m;
+    template <typename... A>
+        requires(sizeof...(A) == sizeof...(Sv) && !(std::is_same_v<std::remove_cvref_t<A>, Agg> || ...))
+    explicit Agg(A&&... a)
     {
-        m[0].emplace(std::forward<A>(a)); m[1].emplace(std::forward<B>(b)); m[2].emplace(std::forward<C>(c));
+        [&]<std::size_t... I>(std::index_sequence<I...>) { (std::get<I>(m).emplace(std::forward<A>(a)), ...); }(std::index_sequence_for<Sv...>{});
     }
     std::string vals() const
     {
         std::vector<long long> w;
-        for (int i = 0; i < N; ++i) w.push_back(val(*m[i]));
+        std::apply([&](auto const&... e) { (w.push_back(val(*e)), ...); }, m);
         return proto::fmt_list(w);
     }
 };
 
-template <typename L, int K, int N>
-struct TOp {
-    using Sv = src_t<K>;
-    using T  = typename tup_n<L, elem_t<K>, N>::type;
-    Sv x0, x1, x2;
-    T t;
-    static T mk(Sv& a, Sv& b, Sv& c, int const* v)
-    {
-        if constexpr (N == 1) { (void)b; (void)c; return T(arg<K>(a, v[0])); }
-        else if constexpr (N == 2) { (void)c; return T(arg<K>(a, v[0]), arg<K>(b, v[1])); }
-        else { return T(arg<K>(a, v[0]), arg<K>(b, v[1]), arg<K>(c, v[2])); }
-    }
-    explicit TOp(int const* v) : x0(v[0]), x1(N > 1 ? v[1] : 0), x2(N > 2 ? v[2] : 0), t(mk(x0, x1, x2, v)) { }
-    std::string vals() const { return tvals(t); }
-    template <typename TT>
-    static std::string tvals(TT const& tt)
-    {
-        std::vector<long long> w;
-        w.push_back(val(L::template get<0>(tt)));
-        if constexpr (N > 1) w.push_back(val(L::template get<1>(tt)));
-        if constexpr (N > 2) w.push_back(val(L::template get<2>(tt)));
-        return proto::fmt_list(w);
-    }
-};
-
-template <typename L, int K, int N>
-static std::string tuple_op(std::string const& op, std::vector<long long> const& a, std::vector<long long> const& b)
+template <typename L, typename TT, std::size_t... I>
+inline std::string tvals_i(TT const& tt, std::index_sequence<I...>)
 {
-    using O  = TOp<L, K, N>;
-    using T  = typename O::T;
-    using Sv = src_t<K>;
-    constexpr bool value = K == 0 || K == 1 || K == 3;
+    std::vector<long long> w{static_cast<long long>(val(L::template get<I>(tt)))...};
+    return proto::fmt_list(w);
+}
+template <typename... X>
+inline std::string svals(std::tuple<X...> const& s)
+{
+    std::vector<long long> w;
+    std::apply([&](auto const&... e) { (w.push_back(val(e)), ...); }, s);
+    return proto::fmt_list(w);
+}
+template <typename... T> struct all_distinct : std::true_type { };
+template <typename T, typename... R> struct all_distinct<T, R...> : std::bool_constant<(!std::is_same_v<T, R> && ...) && all_distinct<R...>::value> { };
+
+// a tuple of library L with element types Map<K>::type..., built over referents / sources x
+template <typename L, template <int> class Map, int... K>
+struct TOpM {
+    static constexpr std::size_t N = sizeof...(K);
+    static constexpr bool copyable = ((K != 2) && ...);
+    using IS  = std::make_index_sequence<N>;
+    using T   = typename L::template tuple<typename Map<K>::type...>;
+    using Src = std::tuple<src_t<K>...>;
+    Src x;
+    T t;
+    template <std::size_t... I>
+    static Src mk_src(int const* v, std::index_sequence<I...>) { return Src(src_t<K>(v[I])...); }
+    template <std::size_t... I>
+    static T mk(Src& s, int const* v, std::index_sequence<I...>)
+    {
+        return T(static_cast<std::conditional_t<K == 4, int&, std::remove_cv_t<typename Map<K>::type>>>(arg<K>(std::get<I>(s), v[I]))...);
+    }
+    explicit TOpM(int const* v) : x(mk_src(v, IS{})), t(mk(x, v, IS{})) { }
+    std::string vals() const { return tvals_i<L>(t, IS{}); }
+};
+template <typename L, int... K> using TOp = TOpM<L, map_elem, K...>;
+
+template <typename L, int... K>
+inline std::string tuple_op(std::string const& op, std::vector<long long> const& a, std::vector<long long> const& b)
+{
+    using O   = TOp<L, K...>;
+    using T   = typename O::T;
+    using ST  = std::tuple<elem_t<K>...>;
+    using Src = typename O::Src;
+    using IS  = typename O::IS;
+    constexpr std::size_t N = sizeof...(K);
+    constexpr bool value       = ((K == 0 || K == 1 || K == 3) && ...);
+    constexpr bool value_or_mo = ((K == 0 || K == 1 || K == 2 || K == 3) && ...);
+    constexpr bool copyable    = ((K != 2) && ...);
+    constexpr bool no_const    = ((K != 5) && ...);
+    constexpr bool has_int     = ((K == 0 || K == 5) || ...);
+    constexpr bool has_plain   = ((K == 0) || ...);
     auto const na = std::string("n/a");
-    int av[3] = {static_cast<int>(a[0]), N > 1 ? static_cast<int>(a[1]) : 0, N > 2 ? static_cast<int>(a[2]) : 0};
-    int bv[3] = {static_cast<int>(b[0]), N > 1 ? static_cast<int>(b[1]) : 0, N > 2 ? static_cast<int>(b[2]) : 0};
-    auto srcs = [&](Sv& x, Sv& y, Sv& z) {
-        std::vector<long long> w{val(x)};
-        if (N > 1) w.push_back(val(y));
-        if (N > 2) w.push_back(val(z));
-        return proto::fmt_list(w);
-    };
+    int av[3] = {0, 0, 0}, bv[3] = {0, 0, 0};
+    for (std::size_t i = 0; i < N; ++i) { av[i] = static_cast<int>(a[i]); bv[i] = static_cast<int>(b[i]); }
     auto bs = proto::fmt_list(b);
-    if (op == "ctor" || op == "ctorr" || op == "make" || op == "maker" || op == "fwd" || op == "tie") {
-        Sv x(av[0]), y(av[1]), z(av[2]);
+    auto tv = [](auto const& tt) { return tvals_i<L>(tt, IS{}); };
+    static_assert(std::is_copy_constructible_v<T> == std::is_copy_constructible_v<ST> && std::is_move_constructible_v<T> == std::is_move_constructible_v<ST>);
+    static_assert(std::is_copy_assignable_v<T> == std::is_copy_assignable_v<ST> && std::is_move_assignable_v<T> == std::is_move_assignable_v<ST>);
+    static_assert(std::is_default_constructible_v<T> == std::is_default_constructible_v<ST>);
+    if (op == "ctor" || op == "ctorr" || op == "make" || op == "maker" || op == "fwd" || op == "tie" || op == "tieassign" || op == "tiemassign") {
+        Src s = O::mk_src(av, IS{});
         g_copies = 0;
-        if (op == "ctor") {
-            if constexpr (K != 2) {
-                if constexpr (N == 1) { T r(x); return res(O::tvals(r), srcs(x, y, z), bs); }
-                else if constexpr (N == 2) { T r(x, y); return res(O::tvals(r), srcs(x, y, z), bs); }
-                else { T r(x, y, z); return res(O::tvals(r), srcs(x, y, z), bs); }
-            } else return na;
-        }
-        if (op == "ctorr") {
-            if constexpr (N == 1) { T r(rv<K>(x)); return res(O::tvals(r), srcs(x, y, z), bs); }
-            else if constexpr (N == 2) { T r(rv<K>(x), rv<K>(y)); return res(O::tvals(r), srcs(x, y, z), bs); }
-            else { T r(rv<K>(x), rv<K>(y), rv<K>(z)); return res(O::tvals(r), srcs(x, y, z), bs); }
-        }
-        if (op == "make") {
-            if constexpr (value) {
-                using R = typename tup_n<L, Sv, N>::type;
-                if constexpr (N == 1) { auto r = L::make_tuple(x); static_assert(std::is_same_v<decltype(r), R>); return res(O::tvals(r), srcs(x, y, z), bs); }
-                else if constexpr (N == 2) { auto r = L::make_tuple(x, y); static_assert(std::is_same_v<decltype(r), R>); return res(O::tvals(r), srcs(x, y, z), bs); }
-                else { auto r = L::make_tuple(x, y, z); static_assert(std::is_same_v<decltype(r), R>); return res(O::tvals(r), srcs(x, y, z), bs); }
-            } else return na;
-        }
-        if (op == "maker") {
-            if constexpr (value || K == 2) {
-                if constexpr (N == 1) { auto r = L::make_tuple(std::move(x)); return res(O::tvals(r), srcs(x, y, z), bs); }
-                else if constexpr (N == 2) { auto r = L::make_tuple(std::move(x), std::move(y)); return res(O::tvals(r), srcs(x, y, z), bs); }
-                else { auto r = L::make_tuple(std::move(x), std::move(y), std::move(z)); return res(O::tvals(r), srcs(x, y, z), bs); }
-            } else return na;
-        }
-        // fwd / tie: tuples of lvalue references to x, y, z
-        if constexpr (value || K == 2) {
-            auto chk = [&](auto const& r) {
-                bool al = &L::template get<0>(r) == &x;
-                if constexpr (N > 1) al = al && &L::template get<1>(r) == &y;
-                if constexpr (N > 2) al = al && &L::template get<2>(r) == &z;
-                return al ? O::tvals(r) : std::string("!alias");
-            };
-            using R = typename tup_n<L, Sv&, N>::type;
-            if (op == "fwd") {
-                if constexpr (N == 1) { auto r = L::forward_as_tuple(x); static_assert(std::is_same_v<decltype(r), R>); return res(chk(r), srcs(x, y, z), bs); }
-                else if constexpr (N == 2) { auto r = L::forward_as_tuple(x, y); static_assert(std::is_same_v<decltype(r), R>); return res(chk(r), srcs(x, y, z), bs); }
-                else { auto r = L::forward_as_tuple(x, y, z); static_assert(std::is_same_v<decltype(r), R>); return res(chk(r), srcs(x, y, z), bs); }
-            } else {
-                if constexpr (N == 1) { auto r = L::tie(x); static_assert(std::is_same_v<decltype(r), R>); return res(chk(r), srcs(x, y, z), bs); }
-                else if constexpr (N == 2) { auto r = L::tie(x, y); static_assert(std::is_same_v<decltype(r), R>); return res(chk(r), srcs(x, y, z), bs); }
-                else { auto r = L::tie(x, y, z); static_assert(std::is_same_v<decltype(r), R>); return res(chk(r), srcs(x, y, z), bs); }
+        return [&]<std::size_t... I>(std::index_sequence<I...>) -> std::string {
+            if (op == "ctor") {
+                if constexpr (copyable) { T r(std::get<I>(s)...); return res(tv(r), svals(s), bs); }
+                else return na;
             }
-        } else return na;
+            if (op == "ctorr") { T r(rv<K>(std::get<I>(s))...); return res(tv(r), svals(s), bs); }
+            if (op == "make") {
+                if constexpr (value) {
+                    auto r = L::make_tuple(std::get<I>(s)...);
+                    static_assert(std::is_same_v<decltype(r), typename L::template tuple<src_t<K>...>>);
+                    return res(tv(r), svals(s), bs);
+                } else return na;
+            }
+            if (op == "maker") {
+                if constexpr (value_or_mo) {
+                    auto r = L::make_tuple(std::move(std::get<I>(s))...);
+                    static_assert(std::is_same_v<decltype(r), typename L::template tuple<src_t<K>...>>);
+                    return res(tv(r), svals(s), bs);
+                } else return na;
+            }
+            // fwd / tie: tuples of lvalue references to the sources; tieassign: tie(x...) = t assigns through the references
+            if constexpr (value_or_mo) {
+                auto chk = [&](auto const& r) { return ((&L::template get<I>(r) == &std::get<I>(s)) && ...) ? tv(r) : std::string("!alias"); };
+                using R = typename L::template tuple<src_t<K>&...>;
+                if (op == "fwd") { auto r = L::forward_as_tuple(std::get<I>(s)...); static_assert(std::is_same_v<decltype(r), R>); return res(chk(r), svals(s), bs); }
+                if (op == "tie") { auto r = L::tie(std::get<I>(s)...); static_assert(std::is_same_v<decltype(r), R>); return res(chk(r), svals(s), bs); }
+                // the right-hand side is a tuple of values (never of references: K is a value kind or move-only here)
+                using V = typename L::template tuple<src_t<K>...>;
+                V q((src_t<K>(bv[I]))...);
+                g_copies = 0;
+                if (op == "tieassign") {
+                    if constexpr (copyable) { L::tie(std::get<I>(s)...) = q; return res("-", svals(s), tv(q)); }
+                    else return na;
+                }
+                L::tie(std::get<I>(s)...) = std::move(q);
+                return res("-", svals(s), tv(q));
+            } else return na;
+        }(IS{});
     }
     if (op == "dflt") {
-        static_assert(std::is_default_constructible_v<T> == (K == 0 || K == 5));
-        if constexpr (K == 0 || K == 5) {
+        if constexpr (std::is_default_constructible_v<ST>) {
             g_copies = 0;
             T r{};
-            return res(O::tvals(r), proto::fmt_list(a), bs);
+            return res(tv(r), proto::fmt_list(a), bs);
         } else return na;
     }
     if (op == "copy") {
-        if constexpr (std::is_copy_constructible_v<T>) {
+        if constexpr (std::is_copy_constructible_v<ST>) {
             O o(av);
             g_copies = 0;
-            T r(std::as_const(o.t)); // (etl::tuple<int&> r(nonconst) does not compile: etl::is_constructible<int&, tuple<int&>&> is true)
-            return res(O::tvals(r), o.vals(), bs);
+            std::string pre;
+            { T r2(o.t); pre = tv(r2); } // from a non-const lvalue: must be the copy constructor too, not the element-wise one
+            g_copies = 0;
+            T r(std::as_const(o.t));
+            if (pre != tv(r)) return "!copy";
+            return res(tv(r), o.vals(), bs);
         } else return na;
     }
     if (op == "move") {
         O o(av);
         g_copies = 0;
         T r(std::move(o.t));
-        return res(O::tvals(r), o.vals(), bs);
+        return res(tv(r), o.vals(), bs);
     }
-    if (op == "swap" || op == "selfswap") {
-        if constexpr (K != 5) {
+    if (op == "assign") {
+        if constexpr (std::is_copy_assignable_v<ST>) {
             O o(av), q(bv);
             g_copies = 0;
-            if (op == "swap") o.t.swap(q.t); else o.t.swap(o.t);
+            T& ret = (o.t = q.t);
+            if (&ret != &o.t) return "!return";
+            return res("-", o.vals(), q.vals());
+        } else return na;
+    }
+    if (op == "massign") {
+        if constexpr (std::is_move_assignable_v<ST>) {
+            O o(av), q(bv);
+            g_copies = 0;
+            T& ret = (o.t = std::move(q.t));
+            if (&ret != &o.t) return "!return";
+            return res("-", o.vals(), q.vals());
+        } else return na;
+    }
+    if (op == "swap" || op == "fswap" || op == "selfswap") {
+        if constexpr (no_const) {
+            O o(av), q(bv);
+            g_copies = 0;
+            if (op == "swap") o.t.swap(q.t);
+            else if (op == "fswap") L::swap(o.t, q.t);
+            else o.t.swap(o.t);
             return res("-", o.vals(), q.vals());
         } else return na;
     }
     if (op == "get" || op == "getc") {
         O o(av);
         g_copies = 0;
-        std::string r = op == "get" ? O::tvals(o.t) : O::tvals(std::as_const(o.t));
+        std::string r = op == "get" ? tv(o.t) : tv(std::as_const(o.t));
         return res(r, o.vals(), bs);
     }
+    if (op == "sb") {
+        // structured binding by reference: the names designate the elements themselves
+        O o(av);
+        g_copies = 0;
+        std::string r;
+        if constexpr (N == 1) { auto& [e0] = o.t; r = &e0 == &L::template get<0>(o.t) ? fmt_vals({val(e0)}) : "!alias"; }
+        else if constexpr (N == 2) {
+            auto& [e0, e1] = o.t;
+            r = (&e0 == &L::template get<0>(o.t) && &e1 == &L::template get<1>(o.t)) ? fmt_vals({val(e0), val(e1)}) : "!alias";
+        } else {
+            auto& [e0, e1, e2] = o.t;
+            r = (&e0 == &L::template get<0>(o.t) && &e1 == &L::template get<1>(o.t) && &e2 == &L::template get<2>(o.t))
+                  ? fmt_vals({val(e0), val(e1), val(e2)}) : "!alias";
+        }
+        return res(r, o.vals(), bs);
+    }
+    if (op == "gett" || op == "gettr") {
+        // get<T>: only when every element type occurs once
+        if constexpr (all_distinct<elem_t<K>...>::value) {
+            O o(av);
+            g_copies = 0;
+            return [&]<std::size_t... I>(std::index_sequence<I...>) -> std::string {
+                if (op == "gett") {
+                    bool same = ((&L::template get_t<elem_t<K>>(o.t) == &L::template get<I>(o.t)) && ...)
+                             && ((&L::template get_t<elem_t<K>>(std::as_const(o.t)) == &L::template get<I>(std::as_const(o.t))) && ...);
+                    std::vector<long long> w{static_cast<long long>(val(L::template get_t<elem_t<K>>(o.t)))...};
+                    return res(same ? proto::fmt_list(w) : "!alias", o.vals(), bs);
+                }
+                // (reference kinds are left out as for pair, where libstdc++ 12 does not compile get<T&>(pair&&))
+                if constexpr (((K != 4) && ...)) {
+                    std::vector<long long> w;
+                    auto take = [&](auto tag, auto&& e) { typename decltype(tag)::type v(FWD(e)); w.push_back(val(v)); };
+                    (take(std::type_identity<src_t<K>>{}, L::template get_t<elem_t<K>>(std::move(o.t))), ...);
+                    return res(proto::fmt_list(w), o.vals(), bs);
+                } else return na;
+            }(IS{});
+        } else return na;
+    }
     if (op == "getr" || op == "getcr") {
-        if constexpr (K == 2) { if (op == "getcr") return na; }
+        if constexpr (!copyable) { if (op == "getcr") return na; }
         O o(av);
         g_copies = 0;
         std::vector<long long> w;
-        auto take = [&](auto&& e) { Sv v(FWD(e)); w.push_back(val(v)); };
-        if (op == "getr") {
-            take(L::template get<0>(std::move(o.t)));
-            if constexpr (N > 1) take(L::template get<1>(std::move(o.t)));
-            if constexpr (N > 2) take(L::template get<2>(std::move(o.t)));
-        } else {
-            if constexpr (K != 2) {
-                take(L::template get<0>(std::move(std::as_const(o.t))));
-                if constexpr (N > 1) take(L::template get<1>(std::move(std::as_const(o.t))));
-                if constexpr (N > 2) take(L::template get<2>(std::move(std::as_const(o.t))));
-            }
-        }
+        auto take = [&](auto tag, auto&& e) { typename decltype(tag)::type v(FWD(e)); w.push_back(val(v)); };
+        [&]<std::size_t... I>(std::index_sequence<I...>) {
+            if (op == "getr") (take(std::type_identity<src_t<K>>{}, L::template get<I>(std::move(o.t))), ...);
+            else if constexpr (copyable) (take(std::type_identity<src_t<K>>{}, L::template get<I>(std::move(std::as_const(o.t)))), ...);
+        }(IS{});
         return res(proto::fmt_list(w), o.vals(), bs);
     }
     if (op == "mft" || op == "mftr") {
-        using A = Agg<Sv, N>;
+        using A = Agg<src_t<K>...>;
         O o(av);
         g_copies = 0;
         if (op == "mft") {
-            if constexpr (K != 2) { auto r = L::template make_from_tuple<A>(o.t); return res(r.vals(), o.vals(), bs); }
+            if constexpr (copyable) { auto r = L::template make_from_tuple<A>(o.t); return res(r.vals(), o.vals(), bs); }
             else return na;
         }
         auto r = L::template make_from_tuple<A>(std::move(o.t));
         return res(r.vals(), o.vals(), bs);
     }
-    return "bad-op";
-}
-
-template <typename L, int N>
-static std::string tuple_k(int k, std::string const& op, std::vector<long long> const& a, std::vector<long long> const& b)
-{
-    switch (k) {
-    case 0: return tuple_op<L, 0, N>(op, a, b);
-    case 1: return tuple_op<L, 1, N>(op, a, b);
-    case 2: return tuple_op<L, 2, N>(op, a, b);
-    case 3: return tuple_op<L, 3, N>(op, a, b);
-    case 4: return tuple_op<L, 4, N>(op, a, b);
-    case 5: return tuple_op<L, 5, N>(op, a, b);
+    if (op == "conv" || op == "convr") {
+        // converting constructor: int elements widen to long, the other elements keep their type
+        using CT  = typename L::template tuple<typename map_wide<K>::type...>;
+        using SCT = std::tuple<typename map_wide<K>::type...>;
+        static_assert(std::is_constructible_v<CT, T const&> == std::is_constructible_v<SCT, ST const&>);
+        static_assert(std::is_constructible_v<CT, T&&> == std::is_constructible_v<SCT, ST&&>);
+        static_assert(std::is_convertible_v<T const&, CT> == std::is_convertible_v<ST const&, SCT>);
+        if constexpr (has_int) {
+            O o(av);
+            g_copies = 0;
+            auto cv = [](CT const& r) { return tvals_i<L>(r, IS{}); };
+            if (op == "conv") {
+                if constexpr (std::is_constructible_v<SCT, ST const&>) { CT r(std::as_const(o.t)); return res(cv(r), o.vals(), bs); }
+                else return na;
+            }
+            CT r(std::move(o.t));
+            return res(cv(r), o.vals(), bs);
+        } else return na;
+    }
+    if (op == "cassign" || op == "cmassign") {
+        // converting assignment from a tuple whose int elements are short
+        using Q   = TOpM<L, map_narrow, K...>;
+        using SNT = std::tuple<typename map_narrow<K>::type...>;
+        static_assert(std::is_assignable_v<T&, typename Q::T const&> == std::is_assignable_v<ST&, SNT const&>);
+        static_assert(std::is_assignable_v<T&, typename Q::T&&> == std::is_assignable_v<ST&, SNT&&>);
+        if constexpr (has_plain && no_const) {
+            if (op == "cassign") {
+                if constexpr (std::is_assignable_v<ST&, SNT const&>) {
+                    O o(av); Q q(bv);
+                    g_copies = 0;
+                    o.t = std::as_const(q.t);
+                    return res("-", o.vals(), q.vals());
+                } else return na;
+            }
+            O o(av); Q q(bv);
+            g_copies = 0;
+            o.t = std::move(q.t);
+            return res("-", o.vals(), q.vals());
+        } else return na;
+    }
+    if (op == "convp" || op == "convpr") {
+        // tuple from pair (arity 2)
+        if constexpr (N == 2) {
+            return [&]<std::size_t... I>(std::index_sequence<I...>) -> std::string {
+                using P  = typename L::template pair<elem_t<K>...>;
+                using SP = std::pair<elem_t<K>...>;
+                static_assert(std::is_constructible_v<T, P const&> == std::is_constructible_v<ST, SP const&>);
+                static_assert(std::is_constructible_v<T, P&&> == std::is_constructible_v<ST, SP&&>);
+                Src s = O::mk_src(av, IS{});
+                P p(arg<K>(std::get<I>(s), av[I])...);
+                g_copies = 0;
+                if (op == "convp") {
+                    if constexpr (copyable) { T r(std::as_const(p)); return res(tv(r), pvals(p), bs); }
+                    else return na;
+                }
+                T r(std::move(p));
+                return res(tv(r), pvals(p), bs);
+            }(IS{});
+        } else return na;
     }
     return "bad-op";
 }
 
+// the element-kind lists that are instantiated: every list of length 1 and 2, the uniform triples and eight mixed triples
+// (checks/props/c20.py TUPLE_KINDS names the same lists); compiled in four groups (translation units)
+inline int tuple_group(std::vector<long long> const& t)
+{
+    if (t.size() == 1) return 0;
+    if (t.size() == 2) return t[0] <= 1 ? 0 : (t[0] <= 4 ? 1 : 2);
+    return (t[0] == t[1] && t[1] == t[2]) ? 2 : 3;
+}
+template <typename L, int G>
+inline std::string tuple_kinds(std::vector<long long> const& t, std::string const& op, std::vector<long long> const& a, std::vector<long long> const& b)
+{
+    long long key = static_cast<long long>(t.size()) * 1000;
+    for (auto k : t) { if (k < 0 || k > 5) return "bad-op"; }
+    if (t.size() == 1) key += t[0];
+    else if (t.size() == 2) key += t[0] * 10 + t[1];
+    else key += t[0] * 100 + t[1] * 10 + t[2];
+    switch (key) {
+#define C20_T1(g, x) case 1000 + x: if constexpr (G == g) return tuple_op<L, x>(op, a, b); else break;
+#define C20_T2(g, x, y) case 2000 + x * 10 + y: if constexpr (G == g) return tuple_op<L, x, y>(op, a, b); else break;
+#define C20_T2R(g, x) C20_T2(g, x, 0) C20_T2(g, x, 1) C20_T2(g, x, 2) C20_T2(g, x, 3) C20_T2(g, x, 4) C20_T2(g, x, 5)
+#define C20_T3(g, x, y, z) case 3000 + x * 100 + y * 10 + z: if constexpr (G == g) return tuple_op<L, x, y, z>(op, a, b); else break;
+        C20_T1(0, 0) C20_T1(0, 1) C20_T1(0, 2) C20_T1(0, 3) C20_T1(0, 4) C20_T1(0, 5)
+        C20_T2R(0, 0) C20_T2R(0, 1) C20_T2R(1, 2) C20_T2R(1, 3) C20_T2R(1, 4) C20_T2R(2, 5)
+        C20_T3(2, 0, 0, 0) C20_T3(2, 1, 1, 1) C20_T3(2, 2, 2, 2) C20_T3(2, 3, 3, 3) C20_T3(2, 4, 4, 4) C20_T3(2, 5, 5, 5)
+        C20_T3(3, 0, 2, 4) C20_T3(3, 1, 3, 5) C20_T3(3, 4, 1, 2) C20_T3(3, 5, 0, 3) C20_T3(3, 2, 5, 1) C20_T3(3, 3, 4, 0) C20_T3(3, 1, 2, 3) C20_T3(3, 0, 4, 5)
+#undef C20_T1
+#undef C20_T2
+#undef C20_T2R
+#undef C20_T3
+    }
+    return "bad-op";
+}
+
+// callee of apply: a member function / member data pointer whose object is the first tuple element
 template <typename L, int N>
-static std::string tuple_eq_apply(std::string const& op, Line const& l)
+inline std::string tuple_eq_apply(std::string const& op, Line const& l)
 {
     auto const& a = l.list("a");
     using TI = typename tup_n<L, int, N>::type;
@@ -690,11 +945,55 @@ static std::string tuple_eq_apply(std::string const& op, Line const& l)
     return "r=" + std::to_string(r) + " log=" + fmt_log();
 }
 
+// apply f=memfn|memdata q=Q a=[x] | v=N: apply(pointer to member, tuple<Sc, int> / tuple<Sc>) with the tuple in category q:
+// the object is the first element and arrives with the tuple's category
 template <typename L>
-static std::string tuple_line(Line const& l)
+inline std::string apply_memptr(Line const& l)
+{
+    auto const& f = l.str("f");
+    long long q   = l.i("q");
+    g_log.clear();
+    long long r = 0;
+    if (f == "memfn") {
+        auto const& a = l.list("a");
+        if (a.size() != 1) return "bad-op";
+        typename L::template tuple<Sc, int> t(Sc{}, static_cast<int>(a[0]));
+        switch (q) {
+        case 0: r = L::apply(static_cast<pmf_l>(&Sc::q), t); break;
+        case 1: r = L::apply(static_cast<pmf_c>(&Sc::q), std::as_const(t)); break;
+        case 2: r = L::apply(static_cast<pmf_r>(&Sc::q), std::move(t)); break;
+        default: r = L::apply(static_cast<pmf_k>(&Sc::q), std::move(std::as_const(t))); break;
+        }
+    } else if (f == "memdata") {
+        Sc s;
+        s.dm = static_cast<int>(l.i("v"));
+        typename L::template tuple<Sc> t(s);
+        r = with_cat(q, t, [&](auto&& tt) -> long long { return L::apply(&Sc::dm, FWD(tt)); });
+        if (&L::apply(&Sc::dm, t) != &L::template get<0>(t).dm) return "!addr";
+    } else return "bad-op";
+    return "r=" + std::to_string(r) + " log=" + fmt_log();
+}
+
+// group G of the element-kind lists; the lines that have no kind list (eq, apply) belong to group 0
+inline int tuple_line_group(Line const& l)
 {
     auto const& op = l.str("op");
-    auto const& a  = l.list("a");
+    if (op == "eq" || op == "apply" || !l.has("t")) return 0;
+    return tuple_group(l.list("t"));
+}
+template <typename L, int G>
+inline std::string tuple_line(Line const& l)
+{
+    auto const& op = l.str("op");
+    if constexpr (G != 0) {
+        auto const& a = l.list("a");
+        auto const& b = l.list("b");
+        auto const& t = l.list("t");
+        if (a.empty() || a.size() > 3 || b.size() != a.size() || t.size() != a.size()) return "bad-op";
+        return tuple_kinds<L, G>(t, op, a, b);
+    } else {
+    if (op == "apply" && l.has("f")) return apply_memptr<L>(l);
+    auto const& a = l.list("a");
     if (op == "eq" && a.empty() && l.list("b").empty()) {
         typename L::template tuple<> x{}, y{};
         bool e = x == y, ne = x != y;
@@ -713,130 +1012,181 @@ static std::string tuple_line(Line const& l)
     auto const& b = l.list("b");
     auto const& t = l.list("t");
     if (b.size() != a.size() || t.size() != a.size()) return "bad-op";
-    for (auto k : t) if (k != t[0]) return "bad-op";
-    if (op == "assign" || op == "massign" || op == "fswap" || op == "sb" || op == "conv" || op == "convr" || op == "cassign" || op == "cmassign")
-        return "bad-op"; // members etl::tuple does not have (see typeq lines)
-    switch (a.size()) {
-    case 1: return tuple_k<L, 1>(int(t[0]), op, a, b);
-    case 2: return tuple_k<L, 2>(int(t[0]), op, a, b);
-    default: return tuple_k<L, 3>(int(t[0]), op, a, b);
+    return tuple_kinds<L, 0>(t, op, a, b);
     }
 }
 
-// tcat t=K q=0|2 ts=[n1,..] v=[..]: up to three tuples of arity 1..2
-template <typename L, int K>
-struct Cat {
-    using Sv = src_t<K>;
-    template <int N> using T = typename tup_n<L, Sv, N>::type;
-    template <int N>
-    static T<N> mk(long long const* v)
-    {
-        if constexpr (N == 1) return T<N>(Sv(int(v[0])));
-        else return T<N>(Sv(int(v[0])), Sv(int(v[1])));
-    }
-    template <typename TT>
-    static void dump(TT const& t, std::vector<long long>& w)
-    {
-        std::apply([&](auto const&... e) { (w.push_back(val(e)), ...); }, to_std(t));
-    }
-    template <typename TT>
-    static auto to_std(TT const& t)
-    {
-        return [&]<std::size_t... I>(std::index_sequence<I...>) { return std::tie(L::template get<I>(t)...); }(
-            std::make_index_sequence<tsize<TT>()>{});
-    }
+#if C20_IN(2)
+std::string part::tuple_e0(Line const& l) { return tuple_line<E, 0>(l); }
+#endif
+#if C20_IN(3)
+std::string part::tuple_e1(Line const& l) { return tuple_line<E, 1>(l); }
+#endif
+#if C20_IN(4)
+std::string part::tuple_e2(Line const& l) { return tuple_line<E, 2>(l); }
+#endif
+#if C20_IN(5)
+std::string part::tuple_e3(Line const& l) { return tuple_line<E, 3>(l); }
+#endif
+#if C20_IN(6)
+std::string part::tuple_s0(Line const& l) { return tuple_line<S, 0>(l); }
+#endif
+#if C20_IN(7)
+std::string part::tuple_s1(Line const& l) { return tuple_line<S, 1>(l); }
+#endif
+#if C20_IN(8)
+std::string part::tuple_s2(Line const& l) { return tuple_line<S, 2>(l); }
+#endif
+#if C20_IN(9)
+std::string part::tuple_s3(Line const& l) { return tuple_line<S, 3>(l); }
+#endif
+
+// ---------------------------------------------------------------- tuple_cat
+// tcat k=[kinds of the flattened elements] q=Q ts=[n1,..] v=[flattened values]: up to three tuples of arity 1..2, handed over as
+// lvalues (q=0), const lvalues (1), rvalues (2), const rvalues (3).  Instantiated: every shape for a uniform kind, and the mixed
+// combinations of tcat_line below (checks/props/c20.py TCAT_MIXED names the same lists).
+template <typename L>
+struct CatRun {
     template <typename TT>
     static constexpr std::size_t tsize()
     {
         if constexpr (L::is_etl) return etl::tuple_size_v<TT>; else return std::tuple_size_v<TT>;
     }
-    template <typename... Ts>
-    static std::string run(bool rval, Ts&... ts)
+    template <typename TT>
+    static void dump(TT const& t, std::vector<long long>& w)
     {
+        [&]<std::size_t... I>(std::index_sequence<I...>) { (w.push_back(val(L::template get<I>(t))), ...); }(std::make_index_sequence<tsize<TT>()>{});
+    }
+    template <typename... Os>
+    static std::string run(long long q, Os&... os)
+    {
+        constexpr bool copyable = (Os::copyable && ...);
         g_copies = 0;
         std::vector<long long> r, after;
-        if (rval) {
-            auto c = L::tuple_cat(std::move(ts)...);
-            dump(c, r);
-        } else {
-            if constexpr (K != 2) { auto c = L::tuple_cat(ts...); dump(c, r); }
-            else return "n/a";
+        switch (q) {
+        case 0:
+            if constexpr (copyable) { auto c = L::tuple_cat(os.t...); dump(c, r); break; } else return "n/a";
+        case 1:
+            if constexpr (copyable) { auto c = L::tuple_cat(std::as_const(os.t)...); dump(c, r); break; } else return "n/a";
+        case 2: { auto c = L::tuple_cat(std::move(os.t)...); dump(c, r); break; }
+        case 3:
+            if constexpr (copyable) { auto c = L::tuple_cat(std::move(std::as_const(os.t))...); dump(c, r); break; } else return "n/a";
+        default: return "bad-op";
         }
         int cp = g_copies;
-        (dump(ts, after), ...);
+        (dump(os.t, after), ...);
         return "r=" + proto::fmt_list(r) + " a=" + proto::fmt_list(after) + " cp=" + std::to_string(cp);
     }
-    template <int N1>
-    static std::string go1(bool rv_, std::vector<long long> const& ts, long long const* v)
+    template <typename O1, typename O2 = void, typename O3 = void>
+    static std::string build(long long q, int const* v)
     {
-        auto t1 = mk<N1>(v);
-        if (ts.size() == 1) return run(rv_, t1);
-        return ts[1] == 1 ? go2<N1, 1>(rv_, ts, v, t1) : go2<N1, 2>(rv_, ts, v, t1);
+        O1 o1(v);
+        if constexpr (std::is_void_v<O2>) return run(q, o1);
+        else {
+            O2 o2(v + O1::N);
+            if constexpr (std::is_void_v<O3>) return run(q, o1, o2);
+            else { O3 o3(v + O1::N + O2::N); return run(q, o1, o2, o3); }
+        }
     }
-    template <int N1, int N2>
-    static std::string go2(bool rv_, std::vector<long long> const& ts, long long const* v, T<N1>& t1)
+    template <int K, int N> using U = std::conditional_t<N == 1, TOp<L, K>, TOp<L, K, K>>;
+    template <int K>
+    static std::string uniform(long long q, std::vector<long long> const& ts, int const* v)
     {
-        auto t2 = mk<N2>(v + N1);
-        if (ts.size() == 2) return run(rv_, t1, t2);
-        if (ts[2] == 1) { auto t3 = mk<1>(v + N1 + N2); return run(rv_, t1, t2, t3); }
-        auto t3 = mk<2>(v + N1 + N2);
-        return run(rv_, t1, t2, t3);
+        long long key = 0;
+        for (auto n : ts) key = key * 10 + n;
+        switch (key) {
+        case 1: return build<U<K, 1>>(q, v);
+        case 2: return build<U<K, 2>>(q, v);
+        case 11: return build<U<K, 1>, U<K, 1>>(q, v);
+        case 12: return build<U<K, 1>, U<K, 2>>(q, v);
+        case 21: return build<U<K, 2>, U<K, 1>>(q, v);
+        case 22: return build<U<K, 2>, U<K, 2>>(q, v);
+        case 111: return build<U<K, 1>, U<K, 1>, U<K, 1>>(q, v);
+        case 112: return build<U<K, 1>, U<K, 1>, U<K, 2>>(q, v);
+        case 121: return build<U<K, 1>, U<K, 2>, U<K, 1>>(q, v);
+        case 122: return build<U<K, 1>, U<K, 2>, U<K, 2>>(q, v);
+        case 211: return build<U<K, 2>, U<K, 1>, U<K, 1>>(q, v);
+        case 212: return build<U<K, 2>, U<K, 1>, U<K, 2>>(q, v);
+        case 221: return build<U<K, 2>, U<K, 2>, U<K, 1>>(q, v);
+        case 222: return build<U<K, 2>, U<K, 2>, U<K, 2>>(q, v);
+        }
+        return "bad-op";
     }
 };
-template <typename L>
-static std::string tcat_line(Line const& l)
+// compiled in three groups: uniform kinds 0..2, uniform kinds 3..5, the mixed combinations
+inline int tcat_group(Line const& l)
+{
+    auto const& k = l.list("k");
+    if (k.empty()) return 0;
+    for (auto x : k) if (x != k[0]) return 2;
+    return k[0] <= 2 ? 0 : 1;
+}
+template <typename L, int G>
+inline std::string tcat_line(Line const& l)
 {
     auto const& ts = l.list("ts");
     auto const& v  = l.list("v");
+    auto const& k  = l.list("k");
     long long n    = 0;
     for (auto x : ts) { if (x < 1 || x > 2) return "bad-op"; n += x; }
-    if (ts.empty() || ts.size() > 3 || n != (long long)v.size()) return "bad-op";
-    bool rv_ = l.i("q") == 2;
-    auto go  = [&](auto tag) {
-        using C = typename decltype(tag)::type;
-        return ts[0] == 1 ? C::template go1<1>(rv_, ts, v.data()) : C::template go1<2>(rv_, ts, v.data());
-    };
-    switch (l.i("t")) {
-    case 0: return go(std::type_identity<Cat<L, 0>>{});
-    case 1: return go(std::type_identity<Cat<L, 1>>{});
-    case 2: return go(std::type_identity<Cat<L, 2>>{});
-    case 3: return go(std::type_identity<Cat<L, 3>>{});
+    if (ts.empty() || ts.size() > 3 || n != (long long)v.size() || k.size() != v.size()) return "bad-op";
+    long long q = l.i("q");
+    int iv[6];
+    for (std::size_t i = 0; i < v.size(); ++i) iv[i] = static_cast<int>(v[i]);
+    bool uni = true;
+    for (auto x : k) uni = uni && x == k[0];
+    using C = CatRun<L>;
+    if (uni) {
+        if constexpr (G == 0) {
+            switch (k[0]) {
+            case 0: return C::template uniform<0>(q, ts, iv);
+            case 1: return C::template uniform<1>(q, ts, iv);
+            case 2: return C::template uniform<2>(q, ts, iv);
+            }
+        } else if constexpr (G == 1) {
+            switch (k[0]) {
+            case 3: return C::template uniform<3>(q, ts, iv);
+            case 4: return C::template uniform<4>(q, ts, iv);
+            case 5: return C::template uniform<5>(q, ts, iv);
+            }
+        }
+        return "bad-op";
+    }
+    if constexpr (G == 2) {
+    auto is = [&](std::vector<long long> const& kk, std::vector<long long> const& tt) { return k == kk && ts == tt; };
+    if (is({0, 2, 4, 3, 5}, {2, 1, 2})) return C::template build<TOp<L, 0, 2>, TOp<L, 4>, TOp<L, 3, 5>>(q, iv);
+    if (is({1, 2, 1}, {1, 2})) return C::template build<TOp<L, 1>, TOp<L, 2, 1>>(q, iv);
+    if (is({5, 4, 1, 3, 0}, {2, 2, 1})) return C::template build<TOp<L, 5, 4>, TOp<L, 1, 3>, TOp<L, 0>>(q, iv);
+    if (is({3, 1, 4, 5}, {2, 2})) return C::template build<TOp<L, 3, 1>, TOp<L, 4, 5>>(q, iv);
+    if (is({4, 4, 1}, {1, 2})) return C::template build<TOp<L, 4>, TOp<L, 4, 1>>(q, iv);
+    if (is({5, 0, 5, 2}, {1, 2, 1})) return C::template build<TOp<L, 5>, TOp<L, 0, 5>, TOp<L, 2>>(q, iv);
+    if (is({1, 0, 3}, {2, 1})) return C::template build<TOp<L, 1, 0>, TOp<L, 3>>(q, iv);
     }
     return "bad-op";
 }
 
+#if C20_IN(10)
+std::string part::tcat_e0(Line const& l) { return tcat_line<E, 0>(l); }
+#endif
+#if C20_IN(11)
+std::string part::tcat_e1(Line const& l) { return tcat_line<E, 1>(l); }
+#endif
+#if C20_IN(12)
+std::string part::tcat_e2(Line const& l) { return tcat_line<E, 2>(l); }
+#endif
+#if C20_IN(13)
+std::string part::tcat_s0(Line const& l) { return tcat_line<S, 0>(l); }
+#endif
+#if C20_IN(14)
+std::string part::tcat_s1(Line const& l) { return tcat_line<S, 1>(l); }
+#endif
+#if C20_IN(15)
+std::string part::tcat_s2(Line const& l) { return tcat_line<S, 2>(l); }
+#endif
+
 // ---------------------------------------------------------------- invoke
-static long long fn1(int a, int b) { return record_v(1, '-', {{'v', a}, {'v', b}}); }
-static long long fn2(int a, int b) { return record_v(2, '-', {{'v', a}, {'v', b}}); }
-
-struct Sc {
-    int dm = 0;
-    long long q(int x) & { return record_v(5, 'l', {{'v', x}}); }
-    long long q(int x) const& { return record_v(5, 'c', {{'v', x}}); }
-    long long q(int x) && { return record_v(5, 'r', {{'v', x}}); }
-    long long q(int x) const&& { return record_v(5, 'k', {{'v', x}}); }
-};
-struct Dc : Sc { int extra = 1; };
-
-using pmf_l = long long (Sc::*)(int) &;
-using pmf_c = long long (Sc::*)(int) const&;
-using pmf_r = long long (Sc::*)(int) &&;
-using pmf_k = long long (Sc::*)(int) const&&;
-
-// call g(pmf, object expression) with the pmf whose qualifier matches the expression's category
-template <typename Obj, typename G>
-static long long with_obj(long long c, Obj& o, G&& g)
-{
-    switch (c) {
-    case 0: return g(static_cast<pmf_l>(&Sc::q), o);
-    case 1: return g(static_cast<pmf_c>(&Sc::q), std::as_const(o));
-    case 2: return g(static_cast<pmf_r>(&Sc::q), std::move(o));
-    default: return g(static_cast<pmf_k>(&Sc::q), std::move(std::as_const(o)));
-    }
-}
-
 template <typename L>
-static std::string invoke_line(Line const& l)
+inline std::string invoke_line(Line const& l)
 {
     auto const& f = l.str("f");
     auto const& x = l.list("x");
@@ -899,12 +1249,14 @@ static std::string invoke_line(Line const& l)
 // ---------------------------------------------------------------- function_ref / inplace_function argument forwarding
 // target of signature long long(Trk, Trk&, Trk const&)
 template <bool Etl>
-static std::string fref_line(Line const& l, bool ifn2)
+inline std::string fref_line(Line const& l, bool ifn2)
 {
     auto const& x  = l.list("x");
     std::string f  = ifn2 ? "fob" : l.str("f");
     long long c    = ifn2 ? 0 : l.i("c");
     bool copy      = !ifn2 && l.str("act") == "copy";
+    bool rebind    = !ifn2 && l.str("act") == "rebind";
+    bool ne        = !ifn2 && l.i("ne", 0) == 1; // function_ref<R(Args...) noexcept>
     g_log.clear();
     g_copies    = 0;
     long long r = 0;
@@ -965,13 +1317,23 @@ static std::string fref_line(Line const& l, bool ifn2)
             if (ifn2) {
                 etl::inplace_function<Sig, 32> w{fo};
                 r = call(w);
-            } else if (c == 0) {
-                etl::function_ref<Sig> w{fo};
-                if (copy) { auto w2 = w; r = call(w2); } else r = call(w);
             } else {
-                Fob const cfo{4};
-                etl::function_ref<Sig> w{cfo};
-                if (copy) { auto w2 = w; r = call(w2); } else r = call(w);
+                // w refers to the target; wo refers to another object until `wo = w` rebinds it (act=rebind)
+                Fob other{9};
+                Fob const cfo{4}, cother{9};
+                auto go = [&](auto w, auto wo) -> long long {
+                    if (copy) { auto w2 = w; return call(w2); }
+                    if (rebind) { wo = w; return call(wo); }
+                    return call(w);
+                };
+                if (!ne) {
+                    using FR = etl::function_ref<Sig>;
+                    r = c == 0 ? go(FR{fo}, FR{other}) : go(FR{cfo}, FR{cother});
+                } else {
+                    using FR = etl::function_ref<long long(Trk, Trk&, Trk const&) noexcept>;
+                    static_assert(noexcept(std::declval<FR const&>()(std::declval<Trk>(), std::declval<Trk&>(), std::declval<Trk const&>())));
+                    r = c == 0 ? go(FR{fo}, FR{other}) : go(FR{cfo}, FR{cother});
+                }
             }
         } else {
             if (ifn2) {
@@ -1015,7 +1377,7 @@ static std::string fref_line(Line const& l, bool ifn2)
 
 // ---------------------------------------------------------------- reference_wrapper / bind_front / not_fn
 template <typename W, typename Args>
-static long long call_fwd(W&& w, std::vector<long long> const& xc, Args& a)
+inline long long call_fwd(W&& w, std::vector<long long> const& xc, Args& a)
 {
     auto& [a0, a1] = a;
     if (xc.size() == 0) return FWD(w)();
@@ -1026,7 +1388,7 @@ static long long call_fwd(W&& w, std::vector<long long> const& xc, Args& a)
 }
 
 template <typename L>
-static std::string rw_line(Line const& l)
+inline std::string rw_line(Line const& l)
 {
     auto const& x  = l.list("x");
     auto const& xc = l.list("xc");
@@ -1041,19 +1403,36 @@ static std::string rw_line(Line const& l)
         if (&w.get() != &fo) return "!get";
         if (act == "copy") { auto w2 = w; r = call_fwd(w2, xc, a); }
         else if (act == "rebind") { w = L::ref(other); if (&w.get() != &other) return "!get"; r = call_fwd(w, xc, a); }
+        else if (act == "reref") {
+            auto w2 = L::ref(w); // ref(reference_wrapper<T>) is a reference_wrapper<T> to the same object, not a nested wrapper
+            static_assert(std::is_same_v<decltype(w2), decltype(w)>);
+            if (&w2.get() != &fo) return "!get";
+            r = call_fwd(w2, xc, a);
+        }
         else r = call_fwd(w, xc, a);
     } else {
         auto w = L::cref(fo);
         if (&w.get() != &fo) return "!get";
         if (act == "copy") { auto w2 = w; r = call_fwd(w2, xc, a); }
         else if (act == "rebind") { w = L::cref(other); r = call_fwd(w, xc, a); }
+        else if (act == "reref") {
+            auto w0 = L::ref(fo);
+            auto w2 = L::cref(w0); // cref(reference_wrapper<T>) is a reference_wrapper<T const>
+            auto w3 = L::cref(w);  // cref(reference_wrapper<T const>) stays a reference_wrapper<T const>
+            static_assert(std::is_same_v<decltype(w2), decltype(w)> && std::is_same_v<decltype(w3), decltype(w)>);
+            if (&w2.get() != &fo || &w3.get() != &fo) return "!get";
+            r = call_fwd(w2, xc, a);
+            g_log.clear();
+            r = call_fwd(w3, xc, a);
+        }
         else r = call_fwd(std::as_const(w), xc, a);
     }
     return "r=" + std::to_string(r) + " log=" + fmt_log();
 }
 
-template <typename L>
-static std::string bf_line(Line const& l)
+// H: compiled in two halves (translation units): 0 = up to one bound argument, function pointer, pointers to members; 1 = two bound arguments
+template <typename L, int H>
+inline std::string bf_line(Line const& l)
 {
     auto const& f  = l.str("f");
     auto const& b  = l.list("b");
@@ -1085,26 +1464,168 @@ static std::string bf_line(Line const& l)
         int i0 = b.size() > 0 ? static_cast<int>(b[0]) : 0, i1 = b.size() > 1 ? static_cast<int>(b[1]) : 0;
         auto r0 = br.size() > 0 && br[0] == 1, r1 = br.size() > 1 && br[1] == 1;
         g_copies = 0;
-        if (b.size() == 0) r = go(L::bind_front(Fob{6}));
-        else if (b.size() == 1) {
-            if (r0) r = go(L::bind_front(Fob{6}, L::ref(i0)));
-            else r = bl ? go(L::bind_front(Fob{6}, b0)) : go(L::bind_front(Fob{6}, std::move(b0)));
-        } else if (r0 && r1) r = go(L::bind_front(Fob{6}, L::ref(i0), L::ref(i1)));
-        else if (r0) r = bl ? go(L::bind_front(Fob{6}, L::ref(i0), b1)) : go(L::bind_front(Fob{6}, L::ref(i0), std::move(b1)));
-        else if (r1) r = bl ? go(L::bind_front(Fob{6}, b0, L::ref(i1))) : go(L::bind_front(Fob{6}, std::move(b0), L::ref(i1)));
-        else r = bl ? go(L::bind_front(Fob{6}, b0, b1)) : go(L::bind_front(Fob{6}, std::move(b0), std::move(b1)));
-    } else if (f == "fn") {
+        if constexpr (H == 0) {
+            (void)i1; (void)r1;
+            if (b.size() == 0) r = go(L::bind_front(Fob{6}));
+            else if (b.size() == 1) {
+                if (r0) r = go(L::bind_front(Fob{6}, L::ref(i0)));
+                else r = bl ? go(L::bind_front(Fob{6}, b0)) : go(L::bind_front(Fob{6}, std::move(b0)));
+            } else return "bad-op";
+        } else {
+            if (b.size() != 2) return "bad-op";
+            if (r0 && r1) r = go(L::bind_front(Fob{6}, L::ref(i0), L::ref(i1)));
+            else if (r0) r = bl ? go(L::bind_front(Fob{6}, L::ref(i0), b1)) : go(L::bind_front(Fob{6}, L::ref(i0), std::move(b1)));
+            else if (r1) r = bl ? go(L::bind_front(Fob{6}, b0, L::ref(i1))) : go(L::bind_front(Fob{6}, std::move(b0), L::ref(i1)));
+            else r = bl ? go(L::bind_front(Fob{6}, b0, b1)) : go(L::bind_front(Fob{6}, std::move(b0), std::move(b1)));
+        }
+    } else if constexpr (H == 1) { return "bad-op"; }
+    else if (f == "fn") {
         if (b.size() + x.size() != 2) return "bad-op";
         if (b.size() == 0) r = with_cat(q, *std::make_unique<decltype(L::bind_front(&fn2))>(L::bind_front(&fn2)), [&](auto&& gg) -> long long { return FWD(gg)(static_cast<int>(x[0]), static_cast<int>(x[1])); });
         else if (b.size() == 1) { auto g = L::bind_front(&fn2, static_cast<int>(b[0])); r = with_cat(q, g, [&](auto&& gg) -> long long { return FWD(gg)(static_cast<int>(x[0])); }); }
         else { auto g = L::bind_front(&fn2, static_cast<int>(b[0]), static_cast<int>(b[1])); r = with_cat(q, g, [&](auto&& gg) -> long long { return FWD(gg)(); }); }
+    } else if (f == "memfn" || f == "memdata") {
+        // bind_front(pointer to member, object): the bound object is handed to INVOKE with the wrapper's qualification
+        auto const& o = l.str("o");
+        bool md       = f == "memdata";
+        if (md ? !x.empty() : x.size() != 1) return "bad-op";
+        int xv = md ? 0 : static_cast<int>(x[0]);
+        Sc s;
+        s.dm          = md ? static_cast<int>(l.i("v")) : 0;
+        Sc const* cps = &s;
+        // (when the rvalue call of such a wrapper does not compile against the tree under test the line reports "nc" instead of
+        // stopping the harness build)
+        constexpr bool rv_ok = !L::is_etl || C20_HAS_BF_MEMPTR_RV;
+        if (md) {
+            auto go = [&](auto g) -> long long {
+                if constexpr (rv_ok) return with_cat(q, g, [&](auto&& gg) -> long long { return FWD(gg)(); });
+                else return q == 0 ? g() : std::as_const(g)();
+            };
+            if (!rv_ok && q >= 2) return "nc";
+            if (o == "obj") r = go(L::bind_front(&Sc::dm, s));
+            else if (o == "ptr") r = go(L::bind_front(&Sc::dm, &s));
+            else if (o == "cptr") r = go(L::bind_front(&Sc::dm, cps));
+            else if (o == "refw") r = go(L::bind_front(&Sc::dm, L::ref(s)));
+            else return "bad-op";
+        } else {
+            auto go = [&](auto g) -> long long {
+                if constexpr (rv_ok) return with_cat(q, g, [&](auto&& gg) -> long long { return FWD(gg)(xv); });
+                else return q == 0 ? g(xv) : std::as_const(g)(xv);
+            };
+            if (!rv_ok && q >= 2) return "nc";
+            if (o == "obj") {
+                switch (q) {
+                case 0: { auto g = L::bind_front(static_cast<pmf_l>(&Sc::q), s); r = g(xv); break; }
+                case 1: { auto const g = L::bind_front(static_cast<pmf_c>(&Sc::q), s); r = g(xv); break; }
+                default:
+                    if constexpr (rv_ok) {
+                        if (q == 2) { auto g = L::bind_front(static_cast<pmf_r>(&Sc::q), s); r = std::move(g)(xv); }
+                        else { auto const g = L::bind_front(static_cast<pmf_k>(&Sc::q), s); r = std::move(g)(xv); }
+                    }
+                    break;
+                }
+            } else if (o == "ptr") r = go(L::bind_front(static_cast<pmf_l>(&Sc::q), &s));
+            else if (o == "cptr") r = go(L::bind_front(static_cast<pmf_c>(&Sc::q), cps));
+            else if (o == "refw") r = go(L::bind_front(static_cast<pmf_l>(&Sc::q), L::ref(s)));
+            else return "bad-op";
+        }
     } else return "bad-op";
     return "r=" + std::to_string(r) + " log=" + fmt_log() + " bcp=" + std::to_string(bcp);
 }
 
+// nf f=memfn c=C q=Q p=P x=[v] | nf f=memdata c=C q=Q v=N: not_fn around a pointer to member; the object is the first call argument
 template <typename L>
-static std::string nf_line(Line const& l)
+inline std::string nf_memptr(Line const& l)
 {
+    auto const& f = l.str("f");
+    long long c = l.i("c"), q = l.i("q");
+    g_log.clear();
+    Sc s;
+    bool r = false;
+    if (f == "memfn") {
+        auto const& x = l.list("x");
+        if (x.size() != 1) return "bad-op";
+        int xv = static_cast<int>(x[0]);
+        s.pf   = l.i("p") == 1;
+        auto go = [&](auto pm, auto&& obj) -> bool {
+            auto g = L::not_fn(pm);
+            return with_cat(q, g, [&](auto&& gg) -> bool { return FWD(gg)(FWD(obj), xv); });
+        };
+        switch (c) {
+        case 0: r = go(static_cast<ppf_l>(&Sc::pq), s); break;
+        case 1: r = go(static_cast<ppf_c>(&Sc::pq), std::as_const(s)); break;
+        case 2: r = go(static_cast<ppf_r>(&Sc::pq), std::move(s)); break;
+        default: r = go(static_cast<ppf_k>(&Sc::pq), std::move(std::as_const(s))); break;
+        }
+    } else if (f == "memdata") {
+        s.dm   = static_cast<int>(l.i("v"));
+        auto g = L::not_fn(&Sc::dm);
+        r      = with_cat(q, g, [&](auto&& gg) -> bool { return with_cat(c, s, [&](auto&& obj) -> bool { return FWD(gg)(FWD(obj)); }); });
+    } else return "bad-op";
+    return "r=" + proto::fmt_bool(r) + " log=" + fmt_log();
+}
+
+// nfc f=fn p=P x=[a,b] | f=memfn c=C p=P x=[v] | f=memdata c=C v=N: the stateless not_fn<ConstFn>() (C++26; libstdc++ 12 does not
+// have it: the reference is !INVOKE(ConstFn, args...))
+// (g++-12 does not accept `&f != nullptr` as a constant expression for an inline, i.e. weak, function: the targets of
+// not_fn<ConstFn>() therefore have internal linkage)
+namespace {
+struct ScN {
+    int dm = 0;
+    bool pf = false;
+    bool pq(int x) & { record_v(11, 'l', {{'v', x}}); return pf; }
+    bool pq(int x) const& { record_v(11, 'c', {{'v', x}}); return pf; }
+    bool pq(int x) && { record_v(11, 'r', {{'v', x}}); return pf; }
+    bool pq(int x) const&& { record_v(11, 'k', {{'v', x}}); return pf; }
+};
+[[maybe_unused]] bool npfn0(int a, int b) { record_v(12, '-', {{'v', a}, {'v', b}}); return false; }
+[[maybe_unused]] bool npfn1(int a, int b) { record_v(12, '-', {{'v', a}, {'v', b}}); return true; }
+using npf_l = bool (ScN::*)(int) &;
+using npf_c = bool (ScN::*)(int) const&;
+using npf_r = bool (ScN::*)(int) &&;
+using npf_k = bool (ScN::*)(int) const&&;
+} // namespace
+template <bool Etl>
+inline std::string nfc_line(Line const& l)
+{
+    auto const& f = l.str("f");
+    g_log.clear();
+    ScN s;
+    bool r = false;
+    auto neg = [&]<auto Fn>(auto&&... args) -> bool {
+        if constexpr (Etl) {
+            auto g = etl::not_fn<Fn>();
+            static_assert(std::is_empty_v<decltype(g)>);
+            return g(FWD(args)...);
+        } else return !std::invoke(Fn, FWD(args)...);
+    };
+    if (f == "fn") {
+        auto const& x = l.list("x");
+        if (x.size() != 2) return "bad-op";
+        int a = static_cast<int>(x[0]), b = static_cast<int>(x[1]);
+        r = l.i("p") == 1 ? neg.template operator()<&npfn1>(a, b) : neg.template operator()<&npfn0>(a, b);
+    } else if (f == "memfn") {
+        auto const& x = l.list("x");
+        if (x.size() != 1) return "bad-op";
+        int xv = static_cast<int>(x[0]);
+        s.pf   = l.i("p") == 1;
+        switch (l.i("c")) {
+        case 0: r = neg.template operator()<static_cast<npf_l>(&ScN::pq)>(s, xv); break;
+        case 1: r = neg.template operator()<static_cast<npf_c>(&ScN::pq)>(std::as_const(s), xv); break;
+        case 2: r = neg.template operator()<static_cast<npf_r>(&ScN::pq)>(std::move(s), xv); break;
+        default: r = neg.template operator()<static_cast<npf_k>(&ScN::pq)>(std::move(std::as_const(s)), xv); break;
+        }
+    } else if (f == "memdata") {
+        s.dm = static_cast<int>(l.i("v"));
+        r    = with_cat(l.i("c"), s, [&](auto&& obj) -> bool { return neg.template operator()<&ScN::dm>(FWD(obj)); });
+    } else return "bad-op";
+    return "r=" + proto::fmt_bool(r) + " log=" + fmt_log();
+}
+
+template <typename L>
+inline std::string nf_line(Line const& l)
+{
+    if (l.has("f")) return nf_memptr<L>(l);
     auto const& x  = l.list("x");
     auto const& xc = l.list("xc");
     if (x.size() != xc.size() || x.size() > 2) return "bad-op";
@@ -1125,6 +1646,76 @@ static std::string nf_line(Line const& l)
     });
     return "r=" + proto::fmt_bool(r) + " log=" + fmt_log();
 }
+
+// ---------------------------------------------------------------- type-level facts reported at run time
+// (only facts that are known to differ or that guard them; the obligations that hold are static_asserts below)
+template <typename T>
+concept has_std_tuple_size = requires { sizeof(std::tuple_size<T>); };
+template <typename T>
+concept has_get_by_type = requires(T& t) { get<long>(t); };
+
+template <typename L>
+inline std::string typeq_line(Line const& l)
+{
+    auto const& q = l.str("q");
+    int x = 1, y = 2;
+    (void)x; (void)y;
+    using TI  = typename L::template tuple<int, long>;
+    auto yes = [](bool b) { return proto::fmt_bool(b); };
+    if (q == "make_pair_unwraps_refwrap")
+        return yes(std::is_same_v<decltype(L::make_pair(L::ref(x), 1)), typename L::template pair<int&, int>>);
+    if (q == "make_tuple_unwraps_refwrap")
+        return yes(std::is_same_v<decltype(L::make_tuple(L::ref(x), 1)), typename L::template tuple<int&, int>>);
+    if (q == "tuple_cat_value_types")
+        return yes(std::is_same_v<decltype(L::tuple_cat(std::declval<TI>(), std::declval<typename L::template tuple<Mo>>())),
+                                  typename L::template tuple<int, long, Mo>>);
+    if (q == "tuple_cat_keeps_ref")
+        return yes(std::is_same_v<decltype(L::tuple_cat(std::declval<typename L::template tuple<int&>>())), typename L::template tuple<int&>>);
+    if (q == "tuple_cat_keeps_nested")
+        return yes(std::is_same_v<decltype(L::tuple_cat(std::declval<typename L::template tuple<typename L::template tuple<int>>>())),
+                                  typename L::template tuple<typename L::template tuple<int>>>);
+    if (q == "tuple_copy_assignable") return yes(std::is_copy_assignable_v<TI>);
+    if (q == "tuple_move_assignable") return yes(std::is_move_assignable_v<TI>);
+    if (q == "tuple_get_by_type") return yes(has_get_by_type<TI>);
+    if (q == "tuple_structured_binding") return yes(has_std_tuple_size<TI>);
+    if (q == "pair_get_by_type") return yes(has_get_by_type<typename L::template pair<int, long>>);
+    if (q == "tuple_converting_ctor")
+        return yes(std::is_constructible_v<typename L::template tuple<long, long>, typename L::template tuple<int, int> const&>
+                   && std::is_constructible_v<TI, typename L::template pair<int, long> const&>);
+    if (q == "pair_ref_copy_assignable") return yes(std::is_copy_assignable_v<typename L::template pair<int&, int>>);
+    return "bad-op";
+}
+
+template <typename L, bool Etl>
+inline std::string calls_line(Line const& l)
+{
+    if (l.op == "invoke") return invoke_line<L>(l);
+    if (l.op == "fref") return fref_line<Etl>(l, false);
+    if (l.op == "ifn2") return fref_line<Etl>(l, true);
+    if (l.op == "rw") return rw_line<L>(l);
+    if (l.op == "nf") return nf_line<L>(l);
+    if (l.op == "nfc") return nfc_line<Etl>(l);
+    if (l.op == "typeq") return typeq_line<L>(l);
+    return "bad-op";
+}
+#if C20_IN(16)
+std::string part::calls_e(Line const& l) { return calls_line<E, true>(l); }
+#endif
+#if C20_IN(17)
+std::string part::calls_s(Line const& l) { return calls_line<S, false>(l); }
+#endif
+#if C20_IN(18)
+std::string part::bf_e0(Line const& l) { return bf_line<E, 0>(l); }
+#endif
+#if C20_IN(19)
+std::string part::bf_e1(Line const& l) { return bf_line<E, 1>(l); }
+#endif
+#if C20_IN(20)
+std::string part::bf_s0(Line const& l) { return bf_line<S, 0>(l); }
+#endif
+#if C20_IN(21)
+std::string part::bf_s1(Line const& l) { return bf_line<S, 1>(l); }
+#endif
 
 // ---------------------------------------------------------------- inplace_function histories
 // Closures: Size bytes, trivially copyable or not.  Non-trivial ones are tracked in a registry of
@@ -1297,55 +1888,33 @@ struct Hist {
             } catch (harness_raise const&) { r = "bad_function_call"; }
             catch (std::bad_function_call const&) { r = "bad_function_call"; }
         } else if (op == "bool") { r = std::string("b=") + ((si ? static_cast<bool>(*s) : static_cast<bool>(*o[i])) ? "1" : "0"); }
-        else if (op == "eqnull") {
+        else if (op == "eqnull" || op == "nenull") {
+            // f == nullptr / f != nullptr; the mirrored forms nullptr == f / nullptr != f must agree
             bool e1 = si ? (*s == nullptr) : (*o[i] == nullptr), e2 = si ? (nullptr == *s) : (nullptr == *o[i]);
             bool n1 = si ? (*s != nullptr) : (*o[i] != nullptr), n2 = si ? (nullptr != *s) : (nullptr != *o[i]);
-            if (e1 != e2 || n1 != n2 || e1 == n1) return "!eqnull";
-            r = std::string("b=") + (n1 ? "1" : "0");
+            if (e1 != e2 || n1 != n2) return "!eqnull";
+            r = std::string("b=") + ((op == "eqnull" ? e1 : n1) ? "1" : "0");
         } else return "bad-op";
         return r + state();
     }
 };
 
-// ---------------------------------------------------------------- type-level facts reported at run time
-// (only facts that are known to differ or that guard them; the obligations that hold are static_asserts below)
-template <typename T>
-concept has_std_tuple_size = requires { sizeof(std::tuple_size<T>); };
-template <typename T>
-concept has_get_by_type = requires(T& t) { get<long>(t); };
-
-template <typename L>
-static std::string typeq_line(Line const& l)
+#if C20_IN(22)
+namespace {
+Hist<EtlSide>& hist_e() { static Hist<EtlSide> h; return h; }
+Hist<StdSide>& hist_s() { static Hist<StdSide> h; return h; }
+bool g_started = false;
+} // namespace
+std::string part::ifn_new() { g_started = true; auto a = hist_e().fresh(); return a + "\t" + hist_s().fresh(); }
+std::string part::ifn_step(Line const& l)
 {
-    auto const& q = l.str("q");
-    int x = 1, y = 2;
-    (void)x; (void)y;
-    using TI  = typename L::template tuple<int, long>;
-    auto yes = [](bool b) { return proto::fmt_bool(b); };
-    if (q == "make_pair_unwraps_refwrap")
-        return yes(std::is_same_v<decltype(L::make_pair(L::ref(x), 1)), typename L::template pair<int&, int>>);
-    if (q == "make_tuple_unwraps_refwrap")
-        return yes(std::is_same_v<decltype(L::make_tuple(L::ref(x), 1)), typename L::template tuple<int&, int>>);
-    if (q == "tuple_cat_value_types")
-        return yes(std::is_same_v<decltype(L::tuple_cat(std::declval<TI>(), std::declval<typename L::template tuple<Mo>>())),
-                                  typename L::template tuple<int, long, Mo>>);
-    if (q == "tuple_cat_keeps_ref")
-        return yes(std::is_same_v<decltype(L::tuple_cat(std::declval<typename L::template tuple<int&>>())), typename L::template tuple<int&>>);
-    if (q == "tuple_cat_keeps_nested")
-        return yes(std::is_same_v<decltype(L::tuple_cat(std::declval<typename L::template tuple<typename L::template tuple<int>>>())),
-                                  typename L::template tuple<typename L::template tuple<int>>>);
-    if (q == "tuple_copy_assignable") return yes(std::is_copy_assignable_v<TI>);
-    if (q == "tuple_move_assignable") return yes(std::is_move_assignable_v<TI>);
-    if (q == "tuple_get_by_type") return yes(has_get_by_type<TI>);
-    if (q == "tuple_structured_binding") return yes(has_std_tuple_size<TI>);
-    if (q == "pair_get_by_type") return yes(has_get_by_type<typename L::template pair<int, long>>);
-    if (q == "tuple_converting_ctor")
-        return yes(std::is_constructible_v<typename L::template tuple<long, long>, typename L::template tuple<int, int> const&>
-                   && std::is_constructible_v<TI, typename L::template pair<int, long> const&>);
-    if (q == "pair_ref_copy_assignable") return yes(std::is_copy_assignable_v<typename L::template pair<int&, int>>);
-    return "bad-op";
+    if (!g_started) { hist_e().fresh(); hist_s().fresh(); g_started = true; }
+    auto a = hist_e().step(l);
+    return a + "\t" + hist_s().step(l);
 }
+#endif
 
+#if C20_IN(23)
 // ---------------------------------------------------------------- compile-time matrix: value categories (decltype)
 // Every obligation is "the etl expression has exactly the type of the std expression".  A failing
 // obligation is a compile error of this harness, which check.py reports as a machinery error.
@@ -1440,32 +2009,64 @@ static_assert(std::is_same_v<decltype(etl::tie(std::declval<int&>(), std::declva
 static_assert(std::is_same_v<decltype(etl::make_tuple(std::declval<int&>(), std::declval<Mo>(), std::declval<Co const&>())), etl::tuple<int, Mo, Co>>);
 static_assert(std::is_same_v<decltype(etl::make_pair(std::declval<int const&>(), std::declval<Mo>())), etl::pair<int, Mo>>);
 static_assert(std::is_same_v<decltype(etl::tuple_cat(std::declval<etl::tuple<int, Mo>>(), std::declval<etl::tuple<Co>&>())), etl::tuple<int, Mo, Co>>);
+// get<T> on tuple and pair: the same types as std::get<T>, through the four reference qualifications
+template <typename T, typename ET, typename ST>
+constexpr bool get_t_ok = std::is_same_v<decltype(etl::get<T>(std::declval<ET&>())), decltype(std::get<T>(std::declval<ST&>()))>
+    && std::is_same_v<decltype(etl::get<T>(std::declval<ET const&>())), decltype(std::get<T>(std::declval<ST const&>()))>
+    && std::is_same_v<decltype(etl::get<T>(std::declval<ET&&>())), decltype(std::get<T>(std::declval<ST&&>()))>
+    && std::is_same_v<decltype(etl::get<T>(std::declval<ET const&&>())), decltype(std::get<T>(std::declval<ST const&&>()))>;
+static_assert(get_t_ok<int, etl::tuple<int, long>, std::tuple<int, long>> && get_t_ok<long, etl::tuple<int, long>, std::tuple<int, long>>);
+static_assert(get_t_ok<int&, etl::tuple<int&, Mo>, std::tuple<int&, Mo>> && get_t_ok<Mo, etl::tuple<int&, Mo>, std::tuple<int&, Mo>>);
+static_assert(get_t_ok<int const, etl::tuple<long, int const, Co>, std::tuple<long, int const, Co>> && get_t_ok<int&&, etl::tuple<long, int&&>, std::tuple<long, int&&>>);
+static_assert(get_t_ok<int, etl::pair<int, long>, std::pair<int, long>> && get_t_ok<long, etl::pair<int, long>, std::pair<int, long>>);
+static_assert(get_t_ok<int&, etl::pair<int&, Mo>, std::pair<int&, Mo>> && get_t_ok<Mo, etl::pair<int&, Mo>, std::pair<int&, Mo>>);
+static_assert(get_t_ok<int const, etl::pair<long, int const>, std::pair<long, int const>>);
+// structured bindings: std::tuple_size / std::tuple_element of an etl::tuple
+static_assert(std::tuple_size_v<etl::tuple<int, Mo, int&>> == 3 && std::tuple_size_v<etl::tuple<int> const> == 1);
+static_assert(std::is_same_v<std::tuple_element_t<2, etl::tuple<int, Mo, int&>>, int&> && std::is_same_v<std::tuple_element_t<0, etl::tuple<int, Mo> const>, int const>);
+// ref / cref of a reference_wrapper do not nest
+static_assert(std::is_same_v<decltype(etl::ref(std::declval<etl::reference_wrapper<int>&>())), etl::reference_wrapper<int>>);
+static_assert(std::is_same_v<decltype(etl::cref(std::declval<etl::reference_wrapper<int>&>())), etl::reference_wrapper<int const>>);
+// the free swap of tuples is the member swap
+static_assert(noexcept(swap(std::declval<etl::tuple<int, long>&>(), std::declval<etl::tuple<int, long>&>())));
 } // namespace matrix
 
+#endif
+
 // ---------------------------------------------------------------- main
+#if C20_IN(-1)
 int main(int argc, char** argv)
 {
-    static Hist<EtlSide> he;
-    static Hist<StdSide> hs;
-    bool started = false;
     return proto::run(argc, argv, [&](Line const& l) -> std::string {
         auto both = [&](std::string a, std::string b) { return a + "\t" + b; };
-        if (l.op == "pair") { auto a = pair_line<E>(l); return both(a, pair_line<S>(l)); }
-        if (l.op == "tuple") { auto a = tuple_line<E>(l); return both(a, tuple_line<S>(l)); }
-        if (l.op == "tcat") { auto a = tcat_line<E>(l); return both(a, tcat_line<S>(l)); }
-        if (l.op == "invoke") { auto a = invoke_line<E>(l); return both(a, invoke_line<S>(l)); }
-        if (l.op == "fref") { auto a = fref_line<true>(l, false); return both(a, fref_line<false>(l, false)); }
-        if (l.op == "ifn2") { auto a = fref_line<true>(l, true); return both(a, fref_line<false>(l, true)); }
-        if (l.op == "rw") { auto a = rw_line<E>(l); return both(a, rw_line<S>(l)); }
-        if (l.op == "bf") { auto a = bf_line<E>(l); return both(a, bf_line<S>(l)); }
-        if (l.op == "nf") { auto a = nf_line<E>(l); return both(a, nf_line<S>(l)); }
-        if (l.op == "typeq") { auto a = typeq_line<E>(l); return both(a, typeq_line<S>(l)); }
-        if (l.op == "new") { started = true; auto a = he.fresh(); return both(a, hs.fresh()); }
-        if (l.op == "ifn") {
-            if (!started) { he.fresh(); hs.fresh(); started = true; }
-            auto a = he.step(l);
-            return both(a, hs.step(l));
+        if (l.op == "pair") { auto a = part::pair_e(l); return both(a, part::pair_s(l)); }
+        using fn_t = std::string (*)(Line const&);
+        if (l.op == "tuple") {
+            static constexpr fn_t fe[4] = {part::tuple_e0, part::tuple_e1, part::tuple_e2, part::tuple_e3};
+            static constexpr fn_t fs[4] = {part::tuple_s0, part::tuple_s1, part::tuple_s2, part::tuple_s3};
+            int g  = tuple_line_group(l);
+            auto a = fe[g](l);
+            return both(a, fs[g](l));
         }
+        if (l.op == "tcat") {
+            static constexpr fn_t fe[3] = {part::tcat_e0, part::tcat_e1, part::tcat_e2};
+            static constexpr fn_t fs[3] = {part::tcat_s0, part::tcat_s1, part::tcat_s2};
+            int g  = tcat_group(l);
+            auto a = fe[g](l);
+            return both(a, fs[g](l));
+        }
+        if (l.op == "invoke" || l.op == "fref" || l.op == "ifn2" || l.op == "rw" || l.op == "nf" || l.op == "nfc" || l.op == "typeq") {
+            auto a = part::calls_e(l);
+            return both(a, part::calls_s(l));
+        }
+        if (l.op == "bf") {
+            bool h = l.str("f") == "fob" && l.list("b").size() == 2;
+            auto a = h ? part::bf_e1(l) : part::bf_e0(l);
+            return both(a, h ? part::bf_s1(l) : part::bf_s0(l));
+        }
+        if (l.op == "new") return part::ifn_new();
+        if (l.op == "ifn") return part::ifn_step(l);
         return "bad-op\tbad-op";
     });
 }
+#endif
